@@ -94,10 +94,10 @@ def oracle(S, proto, path, op, a0, a1, obs, want1):
 
 # ----------------------------------------------------------------------------- exploration of one prototype
 def explore(args):
-    proto, thorough, maxlen = args
+    proto, thorough, maxlen, seed = args
     torch = setup_torch()
     E = M.env()
-    method, model, x = M.build(proto, E)
+    method, model, x = M.build(proto, E, seed)
     S = M.describe(method, model, x)
     ops = M.alphabet(method, thorough)
     a_init = M.observe(model, S)
@@ -158,7 +158,7 @@ def run(ctx):
                 'a case = one transition; non-trivial = the abstract state or the grad pattern is not the initial one; distinct = (prototype, source state, op)' % (protos, MAXLEN))
     t_ex = time.time()
     with ProcessPoolExecutor(min(len(protos), NPROC)) as ex:
-        res = list(ex.map(explore, [(p, not ctx.quick, CAP) for p in protos]))
+        res = list(ex.map(explore, [(p, not ctx.quick, CAP, ctx.seed) for p in protos]))
 
     ctx.extra['wall_explore_s'] = round(time.time() - t_ex, 1)
     # ---- cases + oracle
@@ -182,7 +182,7 @@ def run(ctx):
     ctx.assumptions += ['the structural dependency bit p_reads of non-frozen tensors is measured once on the prototype (everything trainable); for frozen feature maskers it is false by construction',
                         'forward+backward in states with disabled sampling detaches the stale sampled coefficients first (sampling semantics are C10\'s subject)']
     for r, (key, what, path, op) in allfails:
-        ctx.violation(key, {'prototype': r['proto'], 'path': path, 'op': op}, '%s [prototype %s, after %s]' % (what, r['proto'], [M.op_name(o) for o in path]))
+        ctx.violation(key, {'prototype': r['proto'], 'path': path, 'op': op, 'seed': ctx.seed}, '%s [prototype %s, after %s]' % (what, r['proto'], [M.op_name(o) for o in path]))
 
     # ---- model evaluation in Coq
     mism = []
@@ -191,36 +191,58 @@ def run(ctx):
     if built:
         try:
             defs = ''
-            exprs, meta = [], []
+            init_exprs, checks, meta = [], [], []
             for ri, r in enumerate(res):
-                defs += 'Definition st_%d : tstate := %s.\n' % (ri, M.state_coq(r['S'], r['init']))
-                exprs.append('(wfb st_%d, view false st_%d)' % (ri, ri))
-                meta.append((r, None))
+                S = r['S']
+                defs += 'Definition st_%d : tstate := %s.\n' % (ri, M.state_coq(S, r['init']))
+                init_exprs.append('(wfb st_%d, view false st_%d)' % (ri, ri))
                 for t in r['trans']:
                     if t['a1'] is None:
                         continue
-                    exprs.append('run_step false (run false [%s] st_%d) %s' % ('; '.join(M.op_coq(o) for o in t['path']), ri, M.op_coq(t['op'])))
-                    meta.append((r, t))
-            vals = ctx.coq_eval_sharded('cases', ['Plinio.Model.Train'], defs, exprs, shard=400)
-            for (r, t), v in zip(meta, vals):
-                S = r['S']
-                if t is None:
-                    ctx.corr += 1
-                    if v[0] is not True or not same_view(S, v[1], r['init'], r['init']):
-                        mism.append(('initial-state', r['proto'], [], ['init'], 'wfb=%r' % (v[0],)))
-                    continue
-                view, obs = v[:4], v[4]
+                    a1 = t['a1']
+                    e_flags = [bool(f) if f is not None else bool(i0) for f, i0 in zip(a1['flags'], r['init']['flags'])]
+                    it = iter(a1['ldisc'])
+                    e_disc = [next(it) if has else False for has in S['layer_has_disc']]
+                    e_samp = [((sv[0].numerator, sv[0].denominator), sv[1], sv[2]) for sv in a1['samplers']]
+                    e_obs = [] if t['obs'] is None else [c != 0 for c in t['obs']]
+                    checks.append('check_step false st_%d [%s] %s %s %s %s %s %s' % (
+                        ri, '; '.join(M.op_coq(o) for o in t['path']), M.op_coq(t['op']), coq(list(a1['rg'])), coq(e_flags), coq(e_disc), coq(e_samp), coq(e_obs)))
+                    meta.append((ri, r, t))
+            ivals = ctx.coq_eval('init', ['Plinio.Model.Train'], defs, init_exprs)
+            for r, v in zip(res, ivals):
                 ctx.corr += 1
-                d = diff_view(S, view, t['a1'], r['init'])
-                if d:
-                    mism.append(('state', r['proto'], t['path'], t['op'], d))
-                if t['obs'] is not None:
-                    ctx.corr += 1
-                    mo = [bool(b) for _, b in obs]
-                    io = [c != 0 for c in t['obs']]
-                    if mo != io:
-                        bad = [(S['names'][k], 'impl grad' if io[k] else 'impl no grad') for k in range(len(io)) if mo[k] != io[k]]
-                        mism.append(('grad', r['proto'], t['path'], t['op'], bad[:6]))
+                d = diff_view(r['S'], v[1], r['init'], r['init'])
+                if v[0] is not True or d:
+                    mism.append(('initial-state', r['proto'], [], ['init'], 'wfb=%r %s' % (v[0], d)))
+            # one vm_compute per shard: the comparison is made inside Coq, only the failing indices come back
+            SH = 300
+            shards = [checks[i:i + SH] for i in range(0, len(checks), SH)]
+            svals = ctx.coq_eval_sharded('cases', ['Plinio.Model.Train'], defs, ['bad_indices [%s]' % ';\n '.join(c) for c in shards], shard=1) if shards else []
+            bad = []
+            for si, (n, idx) in enumerate(svals):
+                if n != len(shards[si]):
+                    raise RuntimeError('shard %d: %d results for %d cases' % (si, n, len(shards[si])))
+                ctx.corr += n
+                bad += [si * SH + i for i in idx]
+            ctx.corr += sum(1 for _, _, t in meta if t['obs'] is not None)     # the grad pattern is a second observable of a fb transition
+            if bad:
+                # details of the first disagreements: let the model print its view
+                show = bad[:12]
+                exprs = ['run_step false (run false [%s] st_%d) %s' % ('; '.join(M.op_coq(o) for o in meta[i][2]['path']), meta[i][0], M.op_coq(meta[i][2]['op'])) for i in show]
+                vals = ctx.coq_eval('details', ['Plinio.Model.Train'], defs, exprs)
+                for i, v in zip(show, vals):
+                    ri, r, t = meta[i]
+                    S = r['S']
+                    view, obs = v[:4], v[4]
+                    d = diff_view(S, view, t['a1'], r['init'])
+                    if not d and t['obs'] is not None:
+                        mo = [bool(b) for _, b in obs]
+                        io = [c != 0 for c in t['obs']]
+                        d = 'grad pattern: ' + str([(S['names'][k], 'impl grad, model none' if io[k] else 'impl no grad, model grad') for k in range(len(io)) if mo[k] != io[k]][:6])
+                    mism.append(('transition', r['proto'], t['path'], t['op'], d or 'check_step = false'))
+                for i in bad[12:]:
+                    ri, r, t = meta[i]
+                    mism.append(('transition', r['proto'], t['path'], t['op'], '(not expanded)'))
         except RuntimeError as ex:
             model_ok = False
             ctx.notes.append('model evaluation failed: ' + str(ex)[-800:])
@@ -232,7 +254,7 @@ def run(ctx):
             ctx.violation('model-eval-broken', {'notes': ctx.notes}, 'the model could not be evaluated', no_input=True)
         elif mism:
             what, proto, path, op, d = mism[0]
-            ctx.violation('correspondence-broken', {'what': what, 'prototype': proto, 'path': path, 'op': op, 'difference': d, 'n_mismatches': len(mism),
+            ctx.violation('correspondence-broken', {'what': what, 'prototype': proto, 'path': path, 'op': op, 'seed': ctx.seed, 'difference': d, 'n_mismatches': len(mism),
                                                     'correspondence': 'Model/Train.v vs the real object'},
                           'model and implementation disagree on %d transitions (first: %s, prototype %s, after %s, op %s: %s) but the property oracle found no failing input'
                           % (len(mism), what, proto, [M.op_name(o) for o in path], M.op_name(op), d), no_input=True)
@@ -274,7 +296,7 @@ def replay(r):
         return 1
     setup_torch()
     E = M.env()
-    method, model, x = M.build(r['prototype'], E)
+    method, model, x = M.build(r['prototype'], E, r.get('seed', 0))
     S = M.describe(method, model, x)
     a = M.observe(model, S)
     want = want_init(S, a)
